@@ -31,6 +31,14 @@ Theorem real_sort_equals_model_sort :
 Proof. exact (@any_sort_eq_isort). Qed.
 Print Assumptions real_sort_equals_model_sort.
 
+(* the model sort is stable (it is what sort.Stable must return): the elements
+   tied with any k appear in their input order *)
+Theorem model_sort_stable :
+  forall (A : Type) (ltb : A -> A -> bool), StrictWeak ltb ->
+  forall k l, filter (tied ltb k) (isort ltb l) = filter (tied ltb k) l.
+Proof. exact (@isort_stable_gen). Qed.
+Print Assumptions model_sort_stable.
+
 (* comparator that reads a key only (sort.Stable of messages): the KEY sequence
    of the result is canonical when distinct keys are never tied *)
 Theorem sort_keys_perm_invariant :
@@ -207,12 +215,10 @@ Theorem all_map_sites_classified :
 Proof. exact (conj classified_forall no_unresolved). Qed.
 Print Assumptions all_map_sites_classified.
 
-(* full statement "every site is order-insensitive" is FALSE of the code: *)
-Theorem all_map_sites_ordered_refuted : exists s, In s map_sites /\ site_ordered s = false.
-Proof. exact unordered_witness. Qed.
-Print Assumptions all_map_sites_ordered_refuted.
-(* every site outside the seven option validators of finding C08-G2 is *)
-Theorem all_map_sites_ordered_partial :
-  forall s, In s map_sites -> in_known s = false -> site_ordered s = true.
-Proof. exact ordered_except_known. Qed.
-Print Assumptions all_map_sites_ordered_partial.
+(* every site has a class that is order-insensitive (sorted afterwards with a
+   total comparator, commutative fold, per-key write, located diagnostics that
+   are sorted, debug-level log only, dead code).  The seven option validators
+   of finding C08-G2 were the counterexamples until fix 0b86dd3. *)
+Theorem all_map_sites_ordered : forall s, In s map_sites -> site_ordered s = true.
+Proof. exact all_ordered_forall. Qed.
+Print Assumptions all_map_sites_ordered.
